@@ -25,12 +25,13 @@ RULE = ("crash-point enumeration over the lifecycle of instrumented sources (asy
         "one evaluation = one scenario run; non-trivial = at least one closable async source was still open when "
         "the scenario's terminating event started; distinct = (spec, flavours, scenario)")
 RULE += (' Also: adapter sources forwarding aclose through __getattr__, future-like sources, sequences of uses over a fresh adapter class per case (instances with and without aclose), groupby closed after a failing source/key and after a cancelled advance, functions/keys that are not callable at all.')
+RULE += (' Also: class sources have value semantics (all equal, unhashable); async iterables that are not iterators.')
 ASSUMPTIONS = ["sources' own aclose never suspends or fails", "sync iterables have nothing to release",
                "a generator-based tool closed before its first step runs no code (language semantics): sources need "
                "not be closed then, except for handles that advertise eager closing (chain, tee, groupby)"]
 EXHAUSTIVE = {"quick": False, "thorough": False}
 N_SPECS = {"quick": 12000, "thorough": 600000}
-SRC_FL = ["async_gen", "async_class", "async_class", "async_class_bare", "list", "async_class_proxy", "async_class_future"]
+SRC_FL = ["async_gen", "async_class", "async_class", "async_class_bare", "list", "async_class_proxy", "async_class_future", "async_iterable"]
 EAGER = {"chain"}  # handles closing what they own even if never advanced (tee/groupby handled separately)
 
 
